@@ -82,6 +82,7 @@ func lexInputs(c *Ctx, f func(src string, format int, noShow bool)) {
 			f(a+b+"{{ x }}", 5, false)
 		}
 	}
+	commentInputs(c, maxLen-1, func(src string, format int) { f(src, format, false) })
 	corpus := templateCorpus()
 	for i := 0; i < c.N; i++ {
 		fm := c.Rng.Intn(6)
